@@ -95,6 +95,23 @@ Theorem C20_pipe_total : forall valid ts, exists p, try_parse_filter valid ts = 
 Proof. exact try_parse_total. Qed.
 Print Assumptions C20_pipe_total.
 
+(* the request the proxy builds for each source is a pure function of the filter: every source
+   gets the caller's filter, and the caller's filter is unchanged afterwards ... *)
+Theorem C20_fetch_req_pure :
+  forall ff n, snd (fetch_reqs ff n) = ff /\ length (fst (fetch_reqs ff n)) = n
+               /\ forall r, In r (fst (fetch_reqs ff n)) -> r = ff.
+Proof. exact fetch_reqs_pure. Qed.
+Print Assumptions C20_fetch_req_pure.
+
+(* ... and a store's answer depends only on the SET of names it is sent (so that the run may
+   compare requests as sets: de-duplicating or reordering the names is harmless, adding or
+   losing one is not) *)
+Theorem C20_filter_depends_on_name_set :
+  forall d f1 f2 allow, f1 <> [] -> f2 <> [] -> same_names f1 f2 = true ->
+    filter_fields d f1 allow = filter_fields d f2 allow.
+Proof. exact filter_depends_on_name_set. Qed.
+Print Assumptions C20_filter_depends_on_name_set.
+
 (* the block list as it was before /repo c998f0f (Dig + Suicide per listed name): correct for
    pairwise distinct keys ... *)
 Theorem C20_except_v0_distinct_keys :
@@ -148,3 +165,11 @@ Example C20_nonvacuous_pipe :
   try_parse_filter true (render_pipe true [3; 1; 2]) = Ok (mkPF [3; 1; 2] false)
   /\ try_parse_filter true (render_pipe false [1] ++ render_pipe true [2]) = Ok no_filter.
 Proof. split; vm_compute; reflexivity. Qed.
+
+(* hypotheses of C20_filter_depends_on_name_set: a repeated, reordered list against its set;
+   and an extra empty-named entry (key id 0) is NOT the same set and changes the answer *)
+Example C20_nonvacuous_name_set :
+  same_names [2; 1; 2] [1; 2] = true
+  /\ same_names [0; 1] [1; 1] = false
+  /\ filter_fields [(0, 10); (1, 11)] [0; 1] true <> filter_fields [(0, 10); (1, 11)] [1; 1] true.
+Proof. split; [reflexivity|]. split; [reflexivity|]. vm_compute. discriminate. Qed.
